@@ -110,7 +110,7 @@ func scenC09(r *Run) {
 			return
 		}
 		mk := func(remote bool) CItem {
-			k := t.Draw(12)
+			k := t.Draw(13)
 			n := f.next()
 			actID := fmt.Sprintf("https://%s/act/%d", H, n)
 			_, tok, note := f.note(H, Doc{"attributedTo": X})
@@ -186,6 +186,20 @@ func scenC09(r *Run) {
 				act = note
 				it.Err = true
 				remote = false
+			case 12:
+				kind = "boost-of-inline-create-claiming-foreign-host-wrapping-a-note-that-host-does-not-have"
+				// X boosts something given inline as a Create that says it lives on another host and
+				// wraps a post said to live there too, by an author who really exists there. Only that
+				// host can say so, and it has never heard of the post.
+				vh := otherHost(H, t.Draw(2))
+				va := f.simpleActor(vh)
+				fn := f.next()
+				ftok := fmt.Sprintf("K%dx", fn)
+				forged := Doc{"id": fmt.Sprintf("https://%s/o/%d", vh, fn), "type": "Note", "name": ftok, "content": "<p>text " + ftok + "</p>", "attributedTo": va}
+				wrapper := Doc{"id": fmt.Sprintf("https://%s/act/w%d", vh, fn), "type": "Create", "actor": va, "object": forged}
+				act = Doc{"id": actID, "type": "Announce", "actor": X, "object": wrapper}
+				it.Token = ftok
+				it.Err, it.Soft = true, true
 			case 11:
 				kind = "impostor-embedded-claims-foreign-id"
 				// embedded in X's outbox but claiming an id on another host, where the real activity is by Z
@@ -507,6 +521,9 @@ func c09Compare(r *Run, f *Fedi, openURL string, l *CLayout, kinds []string, wha
 		g, w := got[i], ref[i]
 		if g.Err == w.Err && (g.Err || g.Token == w.Token) {
 			continue
+		}
+		if w.Err && w.Soft && !g.Err && g.Token != w.Token {
+			continue // the boost is shown, what it boosts is not vouched for and not shown as genuine
 		}
 		switch {
 		case !g.Err && w.Err:
